@@ -25,8 +25,10 @@ FINDINGS_FILE = os.path.join(VERIF, "known_findings.json")
 
 
 def load_findings(prop: str) -> list:
+    """Entries for `prop` from findings.d/<prop>.json (known_findings.json is the merged, committed index)."""
+    path = os.path.join(VERIF, "findings.d", prop + ".json")
     try:
-        with open(FINDINGS_FILE) as fh:
+        with open(path) as fh:
             data = json.load(fh)
     except FileNotFoundError:
         return []
